@@ -13,7 +13,9 @@ Definition enc_bytes (l : list Z) : list Z := zlen l :: l.
 Definition enc_ekind (k : ekind) : Z :=
   match k with InvalidData => 1 | UnexpectedEof => 2 | Interrupted => 3 | WouldBlock => 4
              | TimedOut => 5 | ConnectionReset => 6 | Other => 7 end.
-Definition dec_ekind (z : Z) : ekind :=
+(* codes 101..107 are the same kinds delivered in another representation (raw OS error / custom error): the kind is what counts *)
+Definition dec_ekind (z0 : Z) : ekind :=
+  let z := z0 mod 100 in
   if z =? 1 then InvalidData else if z =? 2 then UnexpectedEof else if z =? 3 then Interrupted
   else if z =? 4 then WouldBlock else if z =? 5 then TimedOut else if z =? 6 then ConnectionReset else Other.
 
